@@ -227,6 +227,35 @@ def _run_cache(case):
         res[form] = (len(it.invocations), [(a, k) for a, k in it.invocations], it.evictions)
         for k, msg, sig in [(v['kind'], v['msg'], v['sig']) for v in it.viol]:
             viol.append(V(k, f'[{form}] ' + msg, 'option-effect:' + sig))
+    # the options form with the *default* store (no cache given) applied to two functions: each wrapped function
+    # gets its own store, exactly as with the direct form
+    loop = aio.new_event_loop()
+    try:
+        for label, deco in (('threadsafe_async_cache()', threadsafe_async_cache()),
+                            ('threadsafe_async_cache(cache=None)', threadsafe_async_cache(cache=None))):
+            seen = []
+
+            async def f1(*a, **k):
+                seen.append('f1')
+                return ('f1', a, tuple(k.items()))
+
+            async def f2(*a, **k):
+                seen.append('f2')
+                return ('f2', a, tuple(k.items()))
+            w1, w2 = deco(f1), deco(f2)
+            for op in case['ops']:
+                if op['op'] != 'call':
+                    continue
+                args = tuple(c14.VALS[i] for i in op['args'])
+                kwargs = {n: c14.VALS[i] for n, i in op['kwargs']}
+                r1 = loop.run_until_complete(w1(*args, **kwargs))
+                r2 = loop.run_until_complete(w2(*args, **kwargs))
+                if r1[0] != 'f1' or r2[0] != 'f2':
+                    viol.append(V('shared-default-store', f'{label} applied to two functions: f1{args}{kwargs} -> {r1!r}, '
+                                  f'f2{args}{kwargs} -> {r2!r}', 'option-effect:shared-default-store'))
+                    break
+    finally:
+        loop.close()
     if res['direct'][:2] != res['deco-opts'][:2]:
         viol.append(V('spelling-differs', f"threadsafe_async_cache(cache=m)(f) invoked f {res['deco-opts'][0]}x, "
                       f"threadsafe_async_cache(f, cache=m) {res['direct'][0]}x for the same history", 'cache-spelling-differs'))
